@@ -619,9 +619,29 @@ def run(ctx):
     # ---------------------------------------------------------------- surface
     entries = []
     seeds = []
+    entry_list = list(ENTRIES)
     for clspath, fname, text, keys in ENTRIES:
+        # a value class may build its instances in __new__ or in __init__:
+        # whichever it defines takes the text
+        if fname == "__new__" and \
+                (clspath, "__init__", text, keys) not in ENTRIES:
+            entry_list.append((clspath, "__init__", text, keys))
+    for clspath, fname, text, keys in entry_list:
         cls = repo.cls(clspath)
-        f = ctx.anchor("%s.%s" % (clspath, fname), cls.find_method(fname))
+        found = cls.find_method(fname)
+        if found is None and fname in ("__new__", "__init__"):
+            other = "__init__" if fname == "__new__" else "__new__"
+            if cls.find_method(other) is not None:
+                continue
+        if found is not None and fname == "__init__" and \
+                (clspath, fname, text, keys) not in ENTRIES:
+            # the constructor added for a __new__ entry: take its first
+            # parameter after self, whatever it is called
+            ps = [p for p in found.params[1:]] + (
+                [found.vararg] if found.vararg else [])
+            text = [("*" if found.vararg and not found.params[1:] else "") +
+                    ps[0]] if ps else []
+        f = ctx.anchor("%s.%s" % (clspath, fname), found)
         entries.append(f)
         for p in text:
             star = p.startswith("*")
